@@ -93,7 +93,7 @@ func cases(run *ev.Run) []caseSpec {
 	for _, f := range cat {
 		out = append(out, caseSpec{id: "single:" + f.String(), faults: []fault{f}})
 	}
-	nSeq := run.Pick(200, 3000)
+	nSeq := run.Pick(200, 10000)
 	for i := 0; i < nSeq; i++ {
 		id := fmt.Sprintf("sequence-%d", i)
 		r := run.Rand(id)
